@@ -68,6 +68,7 @@ pub fn show_obs(o: &Obs) -> String {
 /// runs the history on the real e-graph; one output per `Q`
 pub fn run_history<L: HLang>(ops: &[Op], check_each: bool) -> Result<Vec<String>, String> {
     fresh_noise(&enc_ops(ops));
+    warm_up(&enc_ops(ops));
     let mut eg: EGraph<L> = EGraph::default();
     let mut tracked: Vec<AppliedId> = Vec::new();
     let mut outs = Vec::new();
@@ -134,6 +135,28 @@ fn small_fv(t: &ATerm) -> bool {
     free_slots(t).len() <= 4
 }
 
+/// in half of the cases (a hash of the case line decides) another small e-graph lives and dies on this thread before the
+/// one under test: a few terms, a union that makes a slot redundant, one that adds a symmetry, a rebuild, a lookup.  Nothing
+/// an e-graph does may depend on what another one did earlier on the same thread
+pub fn warm_up(key: &str) {
+    let h = key.bytes().fold(0xcbf29ce484222325u64, |h, b| (h ^ b as u64).wrapping_mul(0x100000001b3)) >> 13;
+    if h % 2 == 0 {
+        return;
+    }
+    let leaf = |v: usize, sl: &[u32]| ATerm { v, fields: sl.iter().map(|s| CField::Slot(*s)).collect(), children: vec![] };
+    let un = |v: usize, a: ATerm| ATerm { v, fields: vec![CField::App], children: vec![a] };
+    let mut eg: EGraph<crate::langs::Main> = EGraph::default();
+    let a = eg.add_expr(to_recexpr(&leaf(7, &[4, 8])));
+    let b = eg.add_expr(to_recexpr(&leaf(7, &[8, 4])));
+    let c = eg.add_expr(to_recexpr(&leaf(11, &[4, 8])));
+    let d = eg.add_expr(to_recexpr(&leaf(10, &[4])));
+    let _ = eg.add_expr(to_recexpr(&un(13, leaf(11, &[4, 8]))));
+    let _ = guarded(|| eg.union(&a, &b));
+    let _ = guarded(|| eg.union(&c, &d));
+    let _ = guarded(|| eg.eq(&a, &b));
+    let _ = guarded(|| lookup_rec_expr(&to_recexpr::<crate::langs::Main>(&un(13, leaf(11, &[4, 12]))), &eg));
+}
+
 /// every slot of the term spelled `$f<N>` — the spelling of the library's own fresh slots (numeric `$k` becomes `$f<2k>`,
 /// the named ones `$f<2k+1>`): the names reach the slot table when the term is built, i.e. in the middle of the e-graph's
 /// own fresh-slot allocations
@@ -169,7 +192,8 @@ pub fn gen_history(rng: &mut Rng) -> (Vec<Op>, &'static str) {
 }
 
 fn gen_history0(rng: &mut Rng) -> (Vec<Op>, &'static str) {
-    let stream = match rng.below(23) {
+    let stream = match rng.below(24) {
+        23 => "symred4",
         22 => "fcapture",
         21 => "latered2",
         19 | 20 => "migrate",
@@ -208,9 +232,10 @@ fn gen_history0(rng: &mut Rng) -> (Vec<Op>, &'static str) {
     if stream == "inherit" || stream == "symred" || stream == "deepsym" || stream == "upmerge" {
         return (gen_structured(rng, stream), stream);
     }
-    if stream == "tripledep" || stream == "collapse" || stream == "shadow" || stream == "migrate" || stream == "fcapture" {
+    if stream == "tripledep" || stream == "collapse" || stream == "shadow" || stream == "migrate" || stream == "fcapture" || stream == "symred4" {
         let raw = match stream {
             "tripledep" => gen_tripledep(rng),
+            "symred4" => gen_symred4(rng),
             "fcapture" => gen_fcapture(rng),
             "migrate" => gen_migrate(rng),
             "collapse" => gen_collapse(rng),
@@ -467,6 +492,50 @@ pub fn gen_collapse(rng: &mut Rng) -> Vec<Op> {
         ops.push(Op::Union(2, 3));
         ops.push(Op::Union(0, 1));
     }
+    ops
+}
+
+/// a four-slot leaf whose symmetry group has a composite element — `(a b)(c d)` together with `(a b)` or `(c d)` — and then
+/// one position becomes redundant: two generators cross the boundary, and what is left of the group must not depend on the
+/// order the group hands them out in (0-3 unrelated insertions first move the fresh-slot counter)
+pub fn gen_symred4(rng: &mut Rng) -> Vec<Op> {
+    let num = |s: &str| ATerm { v: 15, fields: vec![CField::Lit(s.into())], children: vec![] };
+    let mut pos: Vec<usize> = (0..4).collect();
+    rng.shuffle(&mut pos);
+    let (a, b, c, d) = (pos[0], pos[1], pos[2], pos[3]);
+    let names = [4u32, 8, 12, 16];
+    let spare = 20u32;
+    let f = |perm: &Vec<usize>, red: Option<usize>| {
+        let sl: Vec<u32> = (0..4).map(|i| if Some(i) == red { spare } else { names[perm[i]] }).collect();
+        leaf(9, &sl)
+    };
+    let id: Vec<usize> = (0..4).collect();
+    let mut both = id.clone();
+    both.swap(a, b);
+    both.swap(c, d);
+    let mut one = id.clone();
+    if rng.chance(1, 2) {
+        one.swap(a, b);
+    } else {
+        one.swap(c, d);
+    }
+    let mut ops: Vec<Op> = Vec::new();
+    for i in 0..rng.below(4) {
+        ops.push(Op::Add(un(13, num(&format!("{}", 3 + i)))));
+    }
+    let base = ops.len();
+    ops.push(Op::Add(f(&id, None)));
+    ops.push(Op::Add(f(&both, None)));
+    ops.push(Op::Add(f(&one, None)));
+    ops.push(Op::Add(f(&id, Some([a, b, c, d][rng.below(4)]))));
+    let mut us = vec![(base, base + 1), (base, base + 2)];
+    if rng.chance(1, 2) {
+        us.reverse();
+    }
+    for (x, y) in us {
+        ops.push(Op::Union(x, y));
+    }
+    ops.push(Op::Union(base, base + 3));
     ops
 }
 
